@@ -5,11 +5,11 @@ The *typed* model classes (with annotations func_adl reads) live in vf/sem/typed
 """
 from __future__ import annotations
 
-from vf.sem.pyeval import Seq
+from vf.sem.pyeval import DSeq, Seq
 
 
 class Trk:
-    def __init__(self, d):
+    def __init__(self, d, S=Seq):
         self._vf_id = d["id"]
         self.pt = d["pt"]
         self.n = d["n"]
@@ -20,13 +20,13 @@ class Trk:
 
 
 class Jet:
-    def __init__(self, d):
+    def __init__(self, d, S=Seq):
         self._vf_id = d["id"]
         self.pt = d["pt"]
         self.eta = d["eta"]
         self.idx = d["idx"]
         self._ok = d["ok"]
-        self._trks = Seq(Trk(t) for t in d["trks"])
+        self._trks = S(Trk(t) for t in d["trks"])
 
     def ok(self):
         return self._ok
@@ -39,12 +39,12 @@ class Jet:
 
 
 class Evt:
-    def __init__(self, d):
+    def __init__(self, d, S=Seq):
         self._vf_id = d["id"]
         self.met = d["met"]
         self.run = d["run"]
-        self._nums = Seq(d["nums"])
-        self._jets = Seq(Jet(j) for j in d["jets"])
+        self._nums = S(d["nums"])
+        self._jets = S(Jet(j, S) for j in d["jets"])
 
     def jets(self):
         return self._jets
@@ -53,5 +53,7 @@ class Evt:
         return self._nums
 
 
-def build(data) -> Seq:
-    return Seq(Evt(e) for e in data)
+def build(data, lazy=True):
+    """lazy=True: deferred (LINQ) operators for AST evaluation; lazy=False: plain eager lists (python-direct runs)"""
+    S = DSeq if lazy else Seq
+    return S(Evt(e, S) for e in data)
